@@ -1,4 +1,25 @@
-"""C01 cases: add / sub / neg / abs family."""
+"""C01 cases: add / sub / neg / abs family.
+
+Input classes (all general; none is written for one known change):
+  _gen_main   every op x every standard configuration on the shared structured value / pair classes
+  _split      "split carry" pairs: the operands are cut at a bit k (0, a digit boundary, or anywhere); the low
+              parts sum to 2^k-1 / 2^k / 2^k+1 (resp. differ by -1 / 0 / +1), so a carry (borrow) is just / just not
+              handed to the high parts, and the high parts are placed on the representability boundaries of the
+              (W-k)-bit type (sum = 0, -1, 1, MIN, MAX, MAX+1, MIN-1 ...), with high parts that are zero / sign
+              extension / extreme / random (a quarter of the pairs: both operands short, i.e. zero- or
+              sign-extended from bit k).  k = 0 gives the exact overflow boundaries of every op.
+              Run for every op-form (incl. carry-in 0/1, midpoint in both build modes) on EVERY configuration
+              the harness instantiates: the standard quick list, the thorough-only list, C01's own extra digit
+              counts (harness/src/bin/c01.rs `extra_config`) and the four 8192-bit types.
+  _unary      unary ops on values whose low j digits are zero (early exit of the negate loop at digit j) with an
+              extreme / random remainder, on short values with zero / ones extension, plus the usual extremes, on
+              every configuration (incl. 8192 bits); complete enumeration at 8 bits.
+  _small8     every self value of the 8-bit types x 8 related rhs values x every op-form (quick);
+              complete enumeration 256 x 256 of every op-form in the thorough tier.
+  _grid       edge-digit grid {0,1,B/2-1,B/2,B-1}^n on small multi-digit types: the core ops completely (or a large
+              sample), every other op-form on a sample; carry-in 0 and 1; midpoint in both build modes.
+  _huge       every op-form on the four 8192-bit instantiations.
+"""
 from .common import *
 from . import prim as _prim
 
@@ -21,6 +42,187 @@ I_BIN = ["overflowing_add", "overflowing_sub", "checked_add", "checked_sub", "wr
 I_UN = ["overflowing_neg", "overflowing_abs", "checked_neg", "checked_abs", "wrapping_neg", "wrapping_abs",
         "saturating_neg", "saturating_abs", "unsigned_abs", "strict_neg", "strict_abs"]
 CARRY = ["carrying_add", "borrowing_sub"]
+MODES = ("dbg", "rel")
+
+# digit counts instantiated by harness/src/bin/c01.rs only (see `extra_config` there)
+EXTRA_CFGS = ["8x6", "8x10", "8x11", "8x13", "8x14", "8x15", "8x31", "8x32", "8x33", "8x63", "8x65", "8x127", "8x129",
+              "16x6", "16x7", "16x8", "16x32", "32x5", "32x7", "32x8", "32x32", "64x6", "64x7", "64x32", "64x33"]
+
+
+def _kind(op):
+    """'sub' for the forms computing self - rhs, 'add' for self + rhs"""
+    return "sub" if ("sub" in op or op == "abs_diff") else "add"
+
+
+def _forms(s):
+    """every binary op-form of signedness s as (op, text before the operands, text after them, kind)"""
+    out = []
+    for op in (U_BIN if s == "u" else I_BIN):
+        out.append((op, "", "", _kind(op)))
+    for op in CARRY:
+        for c in (0, 1):
+            out.append((op, "", " %d" % c, _kind(op)))
+    for mode in MODES:
+        out.append(("midpoint", mode + " ", "", "add"))
+    return out
+
+
+def _line(form, s, cfg, a, b):
+    op, pre, suf, _ = form
+    return f"{op} {s}{cfg} {pre}{hx(a)} {hx(b)}{suf}"
+
+
+def _part(rng, w, n, bits):
+    """a `bits`-bit pattern: zero / all ones / extremes / structured / random"""
+    if bits <= 0:
+        return 0
+    m = 1 << bits
+    c = rng.randrange(9)
+    if c == 0:
+        return 0
+    if c == 1:
+        return m - 1
+    if c == 2:
+        return 1
+    if c == 3:
+        return m >> 1
+    if c == 4:
+        return (m >> 1) - 1 if bits > 1 else 0
+    if c == 5:
+        return rng.randrange(m)
+    if c == 6:
+        return rng.randrange(1 << rng.randrange(1, bits + 1))
+    return value(rng, w, n)[1] & (m - 1)
+
+
+def split_pair(rng, w, n, kind):
+    """(tag, a, b): carry / borrow handed over at bit k exactly (or just not), high parts on a boundary"""
+    W = w * n
+    c = rng.randrange(3)
+    if c == 0 or (c == 1 and n == 1):
+        k, tag = 0, "boundary"
+    elif c == 1:
+        k, tag = w * rng.randrange(1, n), "split-digit"
+    else:
+        k, tag = rng.randrange(W), "split-bit"
+    Wh = W - k
+    Mh, Ml = 1 << Wh, 1 << k
+    half = Mh >> 1
+    al = _part(rng, w, n, k)
+    ah = _part(rng, w, n, Wh)
+    d = rng.choice([-1, 0, 0, 1])
+    e = rng.choice([0, 0, 1])
+    TH = rng.choice([0, 0, half, half, 1, Mh - 1, half + 1, half - 1, Mh - 2, 2])
+    if kind == "add":
+        bl = (Ml + d - al) % Ml
+        bh = (TH - ah - e) % Mh
+    else:
+        bl = (al - d) % Ml
+        bh = (ah - TH - e) % Mh
+    r = rng.randrange(8)
+    if r == 0:
+        bl = 0
+    elif r == 1 and k:
+        bl = rng.randrange(Ml)
+    if k and rng.randrange(4) == 0:
+        # both operands are short values (zero- or sign-extended from bit k): the carry / borrow out of the low
+        # parts ripples into pure extension digits
+        ah = rng.choice([0, Mh - 1])
+        bh = rng.choice([0, Mh - 1])
+        tag += "-short"
+    return tag, (ah << k) | al, (bh << k) | bl
+
+
+def _split(rng, tier):
+    thorough = tier == "thorough"
+    std = cfgs(tier)
+    others = [c for c in THOROUGH_CFGS if c not in std] + EXTRA_CFGS
+    for cfglist, reps in ((std, 60 if thorough else 12), (others, 24 if thorough else 6)):
+        for cfg in cfglist:
+            w, n = wn(cfg)
+            for s in "ui":
+                for form in _forms(s):
+                    for _ in range(reps):
+                        t, a, b = split_pair(rng, w, n, form[3] if rng.random() < 0.85 else ("sub" if form[3] == "add" else "add"))
+                        yield _line(form, s, cfg, a, b), t
+
+
+def unary_values(rng, w, n, small):
+    """low j digits zero, remainder extreme / random; short values with zero / ones extension; the usual extremes"""
+    W = w * n
+    M = 1 << W
+    B = 1 << w
+    vals = [0, 1, 2, M - 1, M - 2, M >> 1, (M >> 1) - 1, pat((M >> 1) + 1, W), 1 << rng.randrange(W)]
+    if n <= 8 and not small:
+        js = list(range(n))
+    else:
+        js = sorted(set([0, 1, n // 2, n - 2, n - 1] + ([] if small else [2, 3, n - 3, rng.randrange(n), rng.randrange(n)])) & set(range(n)))
+    for j in js:
+        Wh = W - w * j
+        Mh = 1 << Wh
+        highs = [1, B - 1, Mh - 1, Mh >> 1, (Mh >> 1) - 1, pat((Mh >> 1) + 1, Wh), rng.randrange(1, Mh)]
+        if small:
+            highs = [Mh >> 1, Mh - 1, rng.choice(highs), rng.randrange(1, Mh)]
+        for h in highs:
+            vals.append((h % Mh) << (w * j))
+        # short values: j+1 low digits kept, zero- or sign-extended above (the top bit of the kept part agrees or not)
+        if j + 1 < n:
+            kb = w * (j + 1)
+            lows = [1 << (kb - 1), (1 << (kb - 1)) - 1, (1 << kb) - 1, rng.randrange(1 << kb)]
+            if small:
+                lows = [lows[0], rng.choice(lows[1:])]
+            for lo in lows:
+                vals.append(lo)
+                vals.append(lo | (M - (1 << kb)))
+    return vals
+
+
+def _unary(rng, tier):
+    thorough = tier == "thorough"
+    std = cfgs(tier)
+    others = [c for c in THOROUGH_CFGS if c not in std] + EXTRA_CFGS + HUGE_CFGS
+    core_i = ["overflowing_neg", "overflowing_abs", "unsigned_abs"]
+    rest_i = [o for o in I_UN if o not in core_i]
+    k = 0
+    for cfglist, small in ((std, False), (others, not thorough)):
+        for cfg in cfglist:
+            w, n = wn(cfg)
+            huge = cfg in HUGE_CFGS
+            for v in unary_values(rng, w, n, small or huge):
+                if huge:
+                    # one op per value (8192-bit answers are slow to print on the Lean side): rotate through all
+                    ops = [("u", U_UN[k % len(U_UN)]), ("i", I_UN[k % len(I_UN)])]
+                elif thorough:
+                    ops = [("u", o) for o in U_UN] + [("i", o) for o in I_UN]
+                else:
+                    ops = [("u", o) for o in U_UN] + [("i", o) for o in core_i] + \
+                          [("i", rest_i[(k + i) % len(rest_i)]) for i in range(2)]
+                k += 1
+                for s, op in ops:
+                    yield f"{op} {s}{cfg} {hx(v)}", "unary-zero-run"
+    # complete enumeration at 8 bits (and, thorough tier, of the negate / abs cores at 16 bits in two digits)
+    for s, ops in (("u", U_UN), ("i", I_UN)):
+        for op in ops:
+            for a in range(256):
+                yield f"{op} {s}8x1 {hx(a)}", "exhaustive8"
+            if thorough and op in ("overflowing_neg", "overflowing_abs", "unsigned_abs", "saturating_neg", "checked_neg"):
+                for a in range(1 << 16):
+                    yield f"{op} {s}8x2 {hx(a)}", "exhaustive16"
+
+
+def _small8(rng, tier):
+    """8-bit types: every self value x related rhs values (quick) / every pair (thorough), every op-form"""
+    for s in "ui":
+        for form in _forms(s):
+            for a in range(256):
+                if tier == "thorough":
+                    bs = range(256)
+                elif form[3] == "add":
+                    bs = sorted(set(pat(t - a, 8) for t in (-1, 0, 1, 0x7f, 0x80, 0x81)) | {a, rng.randrange(256)})
+                else:
+                    bs = sorted(set(pat(a - t, 8) for t in (-1, 0, 1, 0x7f, 0x80, 0x81)) | {pat(-a, 8), rng.randrange(256)})
+                for b in bs:
+                    yield _line(form, s, "8x1", a, b), "exhaustive8" if tier == "thorough" else "small8"
 
 
 def _gen_main(rng, tier):
@@ -36,56 +238,57 @@ def _gen_main(rng, tier):
                     t, a = value(rng, w, n)
                     yield f"{op} {s}{cfg} {hx(a)}", t
                 t, a, b = pair(rng, w, n)
-                for mode in ("dbg", "rel"):
+                for mode in MODES:
                     yield f"midpoint {s}{cfg} {mode} {hx(a)} {hx(b)}", t
                 for op in CARRY:
                     t, a, b = pair(rng, w, n)
                     for c in (0, 1):
                         yield f"{op} {s}{cfg} {hx(a)} {hx(b)} {c}", t + "/c%d" % c
-    if tier == "thorough":
-        # complete enumeration at 8 bits for a representative subset
-        for s, ops in (("u", ["overflowing_add", "overflowing_sub", "overflowing_add_signed", "saturating_add_signed", "abs_diff", "midpoint"]),
-                       ("i", ["overflowing_add", "overflowing_sub", "overflowing_add_unsigned",
-                              "overflowing_sub_unsigned", "saturating_add", "saturating_sub", "abs_diff", "midpoint"])):
-            for op in ops:
-                for a in range(256):
-                    for b in range(256):
-                        if op == "midpoint":
-                            yield f"{op} {s}8x1 dbg {hx(a)} {hx(b)}", "exhaustive8"
-                        else:
-                            yield f"{op} {s}8x1 {hx(a)} {hx(b)}", "exhaustive8"
 
 
 def gen(rng, tier):
     yield from _gen_main(rng, tier)
     yield from _grid(rng, tier)
+    yield from _split(rng, tier)
+    yield from _unary(rng, tier)
+    yield from _small8(rng, tier)
     yield from _huge(rng, tier)
     yield from _prim.arith(rng, tier)
+
+
+_GRID_CORE = {"u": ["overflowing_add", "overflowing_sub", "overflowing_add_signed", "abs_diff", "saturating_add_signed"],
+              "i": ["overflowing_add", "overflowing_sub", "overflowing_add_unsigned", "overflowing_sub_unsigned", "abs_diff", "saturating_sub"]}
 
 
 def _grid(rng, tier):
     """systematic edge-digit grid: every pair of values with digits in {0,1,B/2-1,B/2,B-1} on small multi-digit types"""
     lim = 20000 if tier == "thorough" else 700
+    lim2 = 2000 if tier == "thorough" else 120
     for cfg in GRID_CFGS:
-        for s, ops in (("u", ["overflowing_add", "overflowing_sub", "overflowing_add_signed", "abs_diff", "saturating_add_signed"]),
-                       ("i", ["overflowing_add", "overflowing_sub", "overflowing_add_unsigned", "overflowing_sub_unsigned", "abs_diff", "saturating_sub"])):
-            for op in ops:
-                for a, b in grid_pairs(rng, cfg, lim):
-                    yield f"{op} {s}{cfg} {hx(a)} {hx(b)}", "edge-grid"
-            for a, b in grid_pairs(rng, cfg, lim):
-                yield f"carrying_add {s}{cfg} {hx(a)} {hx(b)} 1", "edge-grid"
-                yield f"borrowing_sub {s}{cfg} {hx(a)} {hx(b)} 1", "edge-grid"
-                yield f"midpoint {s}{cfg} dbg {hx(a)} {hx(b)}", "edge-grid"
+        w, n = wn(cfg)
+        for s in "ui":
+            for form in _forms(s):
+                core = form[0] in _GRID_CORE[s] or form[0] in CARRY or form[0] == "midpoint"
+                for a, b in grid_pairs(rng, cfg, lim if core else lim2):
+                    yield _line(form, s, cfg, a, b), "edge-grid"
+            # unary ops over the whole grid
+            for op in (U_UN if s == "u" else I_UN):
+                for a in edge_grid(w, n):
+                    yield f"{op} {s}{cfg} {hx(a)}", "edge-grid"
 
 
 def _huge(rng, tier):
+    """every op-form at 8192 bits (all four digit types): shared dense / extreme operands and split-carry pairs"""
+    reps = 10 if tier == "thorough" else 2
     for cfg in HUGE_CFGS:
+        w, n = wn(cfg)
         vals = huge_values(rng, cfg)
         k = 0
-        for a in vals:
-            for b in vals[:4]:
-                s = "ui"[k % 2]
-                op = ["overflowing_add", "overflowing_sub", "saturating_add", "checked_sub", "abs_diff"][k % 5]
+        for s in "ui":
+            for form in _forms(s):
+                a, b = vals[k % len(vals)], vals[(k // len(vals) + k) % 4]
                 k += 1
-                yield f"{op} {s}{cfg} {hx(a)} {hx(b)}", "huge"
-            yield f"overflowing_neg i{cfg} {hx(a)}", "huge"
+                yield _line(form, s, cfg, a, b), "huge"
+                for _ in range(reps):
+                    t, a, b = split_pair(rng, w, n, form[3])
+                    yield _line(form, s, cfg, a, b), "huge-" + t
